@@ -9,6 +9,7 @@ import itertools
 
 from vf.monitor import Probes
 
+MIN_RANDOM = 150  # random iterations run per shard whatever the wall-clock budget (floors must not depend on machine load)
 SHARDS = {"quick": 4, "thorough": 16}
 BUDGET = {"quick": 22, "thorough": 240}
 MIN_CASES = {"quick": 800, "thorough": 15000}
@@ -262,7 +263,7 @@ def run(ctx):
         ctx.exhaustive_space("histories of length <= 2 over the URL sub-universe (class/options rotated)", n_here)
         n = 0
         lim = 400 if ctx.tier == "quick" else 10 ** 7
-        while ctx.time_left() and n < lim:
+        while (ctx.time_left() or n < MIN_RANDOM) and n < lim:
             n += 1
             cls, fn, kw = rng.choice(configs)
             sa = rng.random() < 0.5
